@@ -451,6 +451,50 @@ def shapes(maxpay=1500):
   return S
 
 
+DECODED_IGMP_TYPES = (0x11, 0x12, 0x16, 0x17, 0x22)
+
+
+def _not(values, other):
+  """strategy transformer: a value of the range that is none of `values` (constructive: mapped, never rejected)"""
+  return lambda v: v if v not in values else other
+
+
+@st.composite
+def arp_other_format(draw):
+  """an RFC 826 packet in a format other than Ethernet / IPv4: at least one of hardware type, protocol type and hardware
+  address length differs (the mask is drawn first so that every combination is equally likely)"""
+  mask = draw(st.integers(1, 7))
+  hwtype = draw(st.one_of(st.sampled_from([6, 0, 2, 15, 32, 0xffff, 0x0100]), u(16)).map(_not((1,), 6))) if mask & 1 else 1
+  proto = draw(st.one_of(st.sampled_from([0x86dd, 0x0805, 0, 0xffff, 0x0008]), u(16)).map(_not((0x0800,), 0x86dd))) if mask & 2 else 0x0800
+  hwlen = draw(st.one_of(st.sampled_from([0, 1, 5, 7, 8, 16, 20, 255]), st.integers(0, 255)).map(_not((6,), 8))) if mask & 4 else 6
+  addr = nbytes(hwlen) if hwlen else st.just(b"")
+  rec = {"t": "arp", "rarp": draw(st.booleans()), "op": draw(st.one_of(st.integers(1, 4), u(16))), "hwtype": hwtype, "prototype": proto,
+         "sha": draw(addr), "spa": draw(ip4), "tha": draw(addr), "tpa": draw(ip4)}
+  if hwlen != 6:
+    rec["hwlen"] = hwlen
+  return rec
+
+
+def igmp_other_type():
+  """an IGMP-numbered message of a type POX's igmp class does not decode (DVMRP 0x13, PIMv1 0x14, mtrace 0x1e / 0x1f,
+  multicast router discovery 0x30..0x32, anything else): 8 octet header + rest, checksum over all of it"""
+  vt = st.one_of(st.sampled_from([0x13, 0x14, 0x1e, 0x1f, 0x30, 0x31, 0x32, 0, 0xff, 0x10, 0x18, 0x21, 0x23]), u(8)).map(
+      _not(DECODED_IGMP_TYPES, 0x13))
+  return st.fixed_dictionaries({"t": st.just("igmp"), "vt": vt, "mrt": u(8), "addr": ip4,
+                                "extra": st.one_of(st.just(b""), st.binary(max_size=9), pbytes(0, 64))})
+
+
+def undecoded_shapes():
+  """{shape name: strategy of specs} for stacks the library can assemble but whose innermost header its parser, as documented,
+  does not decode (it keeps the bytes).  Kept apart from shapes(): C15 draws its mutation bases from shapes()."""
+  none = st.just({"t": "raw", "len": 0, "pat": 0, "fixed": True})
+  return {
+    "arp-other-format": _cat(l2(), arp_other_format(), none),
+    "arp-other-format-padded": _cat(l2(allow_snap=False), arp_other_format(), raw(1, 18)),
+    "ipv4-igmp-other-type": _cat(l2(), ipv4(), igmp_other_type()),
+  }
+
+
 def any_spec(maxpay=64):
   s = shapes(maxpay)
   return st.one_of(*[s[k] for k in sorted(s)])
